@@ -7,6 +7,7 @@ import (
 	"encoding"
 	"encoding/gob"
 	"fmt"
+	"io"
 	"runtime"
 	"runtime/debug"
 	"sort"
@@ -447,6 +448,58 @@ func run(c *fw.Ctx) {
 		}
 	}
 	rec(0)
+	r.flush()
+	// declared sizes without data, read from a stream that cannot tell its length (io.Reader without Len): the decoder
+	// must not allocate what the size field says before it has seen the data
+	c.Family("size-fields", "every type byte x varint length byte 0..11 x 6 fillings of the size bytes, nothing after them: DecodeObject and DecodeBytecodeFrom on a *bytes.Reader and on a plain io.Reader")
+	plainObj := entry{"DecodeObject(plain io.Reader)", func(d []byte) { encoder.DecodeObject(struct{ io.Reader }{bytes.NewReader(d)}) }}
+	plainBC := entry{"DecodeBytecodeFrom(plain io.Reader)", func(d []byte) { encoder.DecodeBytecodeFrom(struct{ io.Reader }{bytes.NewReader(d)}, mm) }}
+	for tb := 0; tb < 256; tb++ {
+		for n := 0; n <= 11; n++ {
+			for fill := 0; fill < 6; fill++ {
+				if !c.Next() {
+					continue
+				}
+				c.Nontrivial()
+				body := []byte{byte(tb), byte(n)}
+				for i := 0; i < n; i++ {
+					var b byte
+					switch fill {
+					case 0:
+						b = 0xff
+					case 1:
+						b = 0x80
+					case 2:
+						b = 0x01
+					case 3:
+						b = 0x7f
+					case 4:
+						if i == n-1 {
+							b = 0x40
+						} else {
+							b = 0x80
+						}
+					default:
+						if i == 0 {
+							b = 0xfe
+						} else if i == n-1 {
+							b = 0x01
+						} else {
+							b = 0xff
+						}
+					}
+					body = append(body, b)
+				}
+				key := fmt.Sprintf("size|%x", body)
+				r.add(tcase{key + "|DecodeObject", decodeObj, body})
+				r.add(tcase{key + "|DecodeObject(plain)", plainObj, body})
+				for field := byte(1); field <= 5; field++ {
+					d := append([]byte{0x00, 0x75, 0x47, 0x4F, 0x00, 2, field}, body...)
+					r.add(tcase{fmt.Sprintf("%s|field=%d|DecodeBytecodeFrom(plain)", key, field), plainBC, d})
+				}
+			}
+		}
+	}
 	r.flush()
 	// hand-made gob messages: everything the gob fallback can be told in a few bytes (type ids, lengths, nil interface)
 	gobAlpha := []byte{0, 1, 2, 3, 4, 5, 6, 7, 8, 0x0c, 0x10, 0x20, 0x40, 0x7f, 0x80, 0xfe, 0xff}
